@@ -136,9 +136,43 @@ class Machine:
                         isinstance(a.values[0], ast.Constant):
                     prefix = a.values[0].value
         if prefix is None:
+            # the name may be built by a helper: getattr(self, _name(cmd))
+            prefix = self._prefix_from_helpers()
+        if prefix is None:
             raise AnalysisError('%s: dispatch idiom getattr(self, PREFIX + '
                                 'cmd) not found' % self.dispatch.qualname)
         return prefix, None
+
+    def _prefix_from_helpers(self):
+        m = self.dispatch.module
+        seen, work, found = set(), [], set()
+        for n in ast.walk(self.dispatch.node):
+            if isinstance(n, ast.Call) and isinstance(n.func, ast.Name) and \
+                    n.func.id == 'getattr' and len(n.args) >= 2 and \
+                    isinstance(n.args[1], ast.Call) and \
+                    isinstance(n.args[1].func, ast.Name):
+                work.append(n.args[1].func.id)
+        while work:
+            name = work.pop()
+            if name in seen or name not in m.funcs:
+                continue
+            seen.add(name)
+            fn = m.funcs[name].node
+            for r in ast.walk(fn):
+                if isinstance(r, ast.Return) and r.value is not None:
+                    v = r.value
+                    if isinstance(v, ast.BinOp) and \
+                            isinstance(v.op, ast.Add) and \
+                            isinstance(v.left, ast.Constant) and \
+                            isinstance(v.left.value, str):
+                        found.add(v.left.value)
+                    elif isinstance(v, ast.JoinedStr) and v.values and \
+                            isinstance(v.values[0], ast.Constant):
+                        found.add(v.values[0].value)
+                    elif isinstance(v, ast.Call) and \
+                            isinstance(v.func, ast.Name):
+                        work.append(v.func.id)
+        return found.pop() if len(found) == 1 else None
 
     LOSSY_METHODS = ('lower', 'upper', 'casefold', 'title', 'capitalize',
                      'swapcase', 'replace', 'translate', 'strip', 'lstrip',
@@ -173,6 +207,20 @@ class Machine:
                 if isinstance(x, ast.Name) and x.id not in seen:
                     seen.add(x.id)
                     work.extend(defs.get(x.id, ()))
+        # helpers that build the name: everything they compute counts
+        m = self.dispatch.module
+        hseen, hwork = set(), [c.func.id for e in exprs for c in ast.walk(e)
+                               if isinstance(c, ast.Call) and
+                               isinstance(c.func, ast.Name)]
+        while hwork:
+            h = hwork.pop()
+            if h in hseen or h not in m.funcs:
+                continue
+            hseen.add(h)
+            exprs.append(m.funcs[h].node)
+            hwork.extend(c.func.id for c in ast.walk(m.funcs[h].node)
+                         if isinstance(c, ast.Call) and
+                         isinstance(c.func, ast.Name))
         out = []
         for e in exprs:
             for c in ast.walk(e):
